@@ -872,6 +872,10 @@ class WriteTool(BaseTool):
 
         # Map tokenize repairs to W002 (ASCII operator -> Unicode)
         for token_repair in tokenize_repairs:
+            # Only normalizations rewrite text; spec_violation findings (wrong_case,
+            # boundary_missing) change nothing and are not corrections.
+            if token_repair.get("type") != "normalization":
+                continue
             corrections.append(
                 {
                     "code": "W002",
